@@ -31,6 +31,16 @@
 (*   "StopKeepsBuffer" stopTest does not restore                             *)
 (*   "RestoreOnlyIfInstalled" the restore is skipped when sys.stdout is not  *)
 (*        the capture buffer (a test redirected stdout itself)               *)
+(*   "OriginalsAtConfigure" the streams to put back are recorded when the    *)
+(*        run is configured, not when the result object is made: in a layer  *)
+(*        subprocess that is before process.py rebinds sys.stderr            *)
+(* Process kinds: a run in the invoking process starts in S0; a layer        *)
+(* subprocess (-j N, or resumed after a tearDown that is not implemented)    *)
+(* starts in S0c: process.py has rebound sys.stderr = sys.stdout before the  *)
+(* first test (the real stderr, "pipe", is the report channel to the parent, *)
+(* where test output is lost).  "orig" is what sys.<x> was just before the   *)
+(* first test of the process: in a child both names denote the one object    *)
+(* whose content the parent copies into the runner output.                   *)
 EXTENDS Naturals, Sequences, FiniteSets, TLC
 
 CONSTANTS NT,          \* number of tests
@@ -38,7 +48,8 @@ CONSTANTS NT,          \* number of tests
           MaxE,        \* result events per test
           MaxR,        \* redirections per test
           Buffer,      \* --buffer given
-          Deviations
+          Deviations,
+          Starts       \* process kinds a history may start in: "main", "child"
 
 Streams == {"stdout", "stderr"}
 BadKinds == {"F", "E", "U", "SF", "SE"}
@@ -48,7 +59,9 @@ Kinds == BadKinds \cup GoodKinds
 
 Both(v) == [x \in Streams |-> v]
 S0 == [cur |-> Both("orig"), saved |-> Both("none"), has |-> FALSE,
-       buf |-> Both(<<>>), out |-> <<>>, seen |-> <<>>, abort |-> FALSE]
+       buf |-> Both(<<>>), out |-> <<>>, seen |-> <<>>, abort |-> FALSE,
+       rebound |-> FALSE]
+S0c == [S0 EXCEPT !.rebound = TRUE]
 
 Arm(s, on) == IF on THEN [s EXCEPT !.cur = Both("buf"), !.has = TRUE] ELSE s
 
@@ -60,7 +73,9 @@ Restore(s, on, D) ==
        ELSE IF "RestoreOnlyIfInstalled" \in D /\ s.cur["stdout"] # "buf"
        THEN <<<<>>, s>>
        ELSE <<s.buf["stdout"] \o s.buf["stderr"],   \* "Stdout:" then "Stderr:"
-              [s EXCEPT !.cur = Both("orig"),
+              [s EXCEPT !.cur = IF "OriginalsAtConfigure" \in D /\ s.rebound
+                                THEN [stdout |-> "orig", stderr |-> "pipe"]
+                                ELSE Both("orig"),
                         !.buf = IF "NoTruncate" \in D THEN @ ELSE Both(<<>>)]>>
   ELSE <<<<>>, s>>
 
@@ -75,7 +90,7 @@ DoSkipUnstarted(s, on, D) == Arm(Hook([s EXCEPT !.saved = Both("none")]), on)
 DoWrite(s, tok, x) ==
   CASE s.cur[x] = "buf" -> [s EXCEPT !.buf[x] = Append(@, tok)]
     [] s.cur[x] = "orig" -> [s EXCEPT !.out = Append(@, <<"T", tok>>)]
-    [] OTHER -> s                      \* swallowed by the test's own object
+    [] OTHER -> s     \* swallowed by the test's own object / the report pipe
 
 DoRedirect(s, x) == [s EXCEPT !.saved[x] = s.cur[x], !.cur[x] = "test"]
 DoUnredirect(s, x) == IF s.saved[x] = "none" THEN s
@@ -105,7 +120,7 @@ VARIABLES st, n, pc, nw, nr, evs, wr, term, tamp
 
 vars == <<st, n, pc, nw, nr, evs, wr, term, tamp>>
 
-Init == /\ st = S0 /\ n = 0 /\ pc = "idle" /\ nw = 0 /\ nr = 0 /\ term = FALSE
+Init == /\ st \in {IF k = "child" THEN S0c ELSE S0 : k \in Starts} /\ n = 0 /\ pc = "idle" /\ nw = 0 /\ nr = 0 /\ term = FALSE
         /\ evs = [t \in 1..NT |-> <<>>]     \* result events of test t
         /\ wr = [t \in 1..NT |-> <<>>]      \* <<tok, dontcare>> written to the runner's streams
         /\ tamp = {}                        \* streams the test put a saved object back into
